@@ -19,7 +19,7 @@ Idx == blk * BS + off + 1
 VerdictEnv(rec, i) ==
     LET exp == Eval(rec.e, Envs[i])
         got == rec.r[i]
-        vs  == [j \in 1..Len(got) |-> JudgeVal(exp, got[j], rec.e, Envs[i])]
+        vs  == [j \in 1..Len(got) |-> JudgeValT(exp, got[j], rec.e, Envs[i])]
     IN  IF \E j \in 1..Len(vs) : vs[j] \notin {"OK", "SKIP"}
         THEN vs[CHOOSE j \in 1..Len(vs) : vs[j] \notin {"OK", "SKIP"}
                                           /\ \A jj \in 1..(j - 1) : vs[jj] \in {"OK", "SKIP"}]
@@ -37,6 +37,6 @@ Report ==
         LET v == VerdictEnv(rec, i) IN
         v = "OK" \/ PrintT(ToJson([id |-> rec.id, env |-> i, v |-> v,
                  pv |-> [j \in 1..Len(rec.r[i]) |->
-                           JudgeVal(Eval(rec.e, Envs[i]), rec.r[i][j], rec.e, Envs[i])],
+                           JudgeValT(Eval(rec.e, Envs[i]), rec.r[i][j], rec.e, Envs[i])],
                  exp |-> Eval(rec.e, Envs[i])]))
 =============================================================================
